@@ -13,7 +13,7 @@ def known : Known :=
 
 /-- fingerprints (extract/main.go `funcHash`) of the functions Model/Build.lean was transcribed from -/
 def sourceHashes : List (String × String) :=
-  [("Interpreter.buildOk", "450a4faa8025a26d"),
+  [("Interpreter.buildOk", "5fd763805313e28a"),
    ("buildLineOk", "e9b789af4cf04266"),
    ("buildOptionOk", "fb608fcc7aa73dd7"),
    ("buildTagOk", "4f0d809c373ea57d"),
